@@ -540,7 +540,8 @@ def jobs(tier):
                 J.append(Job("B0", _wrap(job), cycles=job.kw.get("cycles", 3000), runs=job.kw.get("runs", 1)))
             continue
         if job.mode == "A":
-            J.append(Job("A", _wrap(job, quick), max_states=min(job.kw.get("max_states", 20000), 20000 if quick else 400000),
+            # the twin deferral applies to the base grid only: every glue instance runs in every tier
+            J.append(Job("A", _wrap(job, quick and k < n_base), max_states=min(job.kw.get("max_states", 20000), 20000 if quick else 400000),
                          deadline_s=40 if quick else 400))
         else:
             J.append(Job("B", _wrap(job), cycles=job.kw.get("cycles", 3000), runs=min(job.kw.get("runs", 1), 2),
